@@ -7,12 +7,13 @@ import (
 	"fmt"
 	"io"
 	"sort"
+	"strconv"
 	"strings"
-	"sync"
 	"testing/synctest"
 	"time"
 
 	ds "github.com/ipfs/go-datastore"
+	"github.com/ipfs/go-datastore/query"
 	dssync "github.com/ipfs/go-datastore/sync"
 	"github.com/libp2p/go-libp2p/core/crypto"
 	"github.com/libp2p/go-libp2p/core/peer"
@@ -31,7 +32,6 @@ type universe struct {
 	plain    [nBases]ma.Multiaddr
 	suffixed [nBases][nPeers]ma.Multiaddr
 	baseOf   map[string]int
-	envs     sync.Map // key -> *record.Envelope
 }
 
 var baseAddrs = [nBases]string{
@@ -87,19 +87,28 @@ func envKey(p int, seq uint64, as []addrArg) string {
 	return fmt.Sprintf("%d/%d/%s", p, seq, argsString(as))
 }
 
-// envelope returns the signed peer record (sealed once, shared: Envelope is safe for concurrent reads).
-func (u *universe) envelope(p int, seq uint64, as []addrArg) *record.Envelope {
-	k := envKey(p, seq, as)
-	if e, ok := u.envs.Load(k); ok {
-		return e.(*record.Envelope)
-	}
+// seal returns the signed peer record for (peer, seq, address list).
+func (u *universe) seal(p int, seq uint64, as []addrArg) *record.Envelope {
 	rec := &peer.PeerRecord{PeerID: u.pids[p], Addrs: u.maddrs(p, as), Seq: seq}
 	env, err := record.Seal(rec, u.privs[p])
 	if err != nil {
 		panic(err)
 	}
-	e, _ := u.envs.LoadOrStore(k, env)
-	return e.(*record.Envelope)
+	return env
+}
+
+// envelope seals each distinct record of a history once.
+func (x *executor) envelope(p int, seq uint64, as []addrArg) *record.Envelope {
+	k := envKey(p, seq, as)
+	if e, ok := x.envs[k]; ok {
+		return e
+	}
+	if x.envs == nil {
+		x.envs = map[string]*record.Envelope{}
+	}
+	e := uni.seal(p, seq, as)
+	x.envs[k] = e
+	return e
 }
 
 // recordIdentity is what is compared of a returned envelope: whose it is, its sequence number and the
@@ -194,6 +203,7 @@ type executor struct {
 	fails  []failure
 	step   int
 	base   int64
+	envs   map[string]*record.Envelope
 	// evidence bookkeeping
 	hadRecordDropped [nPeers]bool
 	sawExpiry        bool
@@ -260,7 +270,57 @@ func (x *executor) run() []failure {
 	}
 	x.advance(settle)
 	x.readAll(everything, "")
+	if len(x.fails) == 0 {
+		x.gcIndexAudit()
+	}
 	return x.fails
+}
+
+// gcIndexAudit looks at the datastore itself at the end of a history ("memory stays bounded"): the
+// lookahead collector's time index (/peers/gc/addrs/<unix time>/<peer>) must not keep entries that a
+// purge tick has already visited. A purge tick at G removes every index entry with time <= G; only a
+// populate tick at or after G may add such entries again, so the audit applies when the last populate tick
+// lies strictly before the last purge tick. Stores without lookahead GC must have no index at all.
+func (x *executor) gcIndexAudit() {
+	for _, st := range x.stores {
+		if st.cfg.Kind != skDS {
+			continue
+		}
+		res, err := st.dstore.Query(context.Background(), query.Query{Prefix: "/peers/gc/addrs", KeysOnly: true})
+		if err != nil {
+			panic(err)
+		}
+		entries, err := res.Rest()
+		if err != nil {
+			panic(err)
+		}
+		g := st.sched
+		now := x.m.now
+		base := g.start + g.delay
+		if now < base+g.purge {
+			continue
+		}
+		lastPurge := base + (now-base)/g.purge*g.purge
+		if g.look == 0 {
+			if len(entries) > 0 {
+				x.fail(st, "ds-gc-index", "datastore of a full-purge book holds %d lookahead index entries, e.g. %s", len(entries), entries[0].Key)
+			}
+			continue
+		}
+		lastPopulate := base + (now-base)/g.look*g.look
+		if lastPopulate >= lastPurge {
+			continue
+		}
+		x.st["ds_gc_index_audits"]++
+		for _, e := range entries {
+			ts, err := strconv.ParseInt(ds.RawKey(e.Key).Parent().Name(), 10, 64)
+			if err != nil || ts <= lastPurge {
+				x.fail(st, "ds-gc-index", "lookahead index entry %s (t=+%ds) is still in the datastore after the purge tick at t=+%ds (last populate tick t=+%ds, now t=+%ds)", e.Key, ts-x.base, lastPurge-x.base, lastPopulate-x.base, now-x.base)
+				break
+			}
+			x.st["ds_gc_index_future_entries_seen"]++
+		}
+	}
 }
 
 func (x *executor) advance(sec int64) {
@@ -448,7 +508,7 @@ func (x *executor) apply(s step) {
 		}
 		x.st["superseded_addrs_evicted"] += evicted
 		x.st["superseded_addrs_kept_connected"] += kept
-		env := uni.envelope(s.Peer, s.Seq, s.Addrs)
+		env := x.envelope(s.Peer, s.Seq, s.Addrs)
 		for _, st := range x.stores {
 			ok, err := st.ab.ConsumePeerRecord(env, s.TTL)
 			accepted, recBefore, prevSeq := accepted, recBefore, prevSeq
@@ -622,7 +682,7 @@ func (x *executor) read(st *liveStore, rd read, suffix string) {
 			x.fail(st, "record-lost"+suffix, "GetPeerRecord(P%d) = nil; statement: record seq=%d retrievable (peer continuously had live addresses: %s)", rd.Peer, want.seq, basesString(m.live(rd.Peer)))
 		default:
 			x.st["read/record_nonnil"]++
-			wantEnv := uni.envelopeByKey(m.peers[rd.Peer].recKey)
+			wantEnv := x.envs[m.peers[rd.Peer].recKey]
 			if !bytes.Equal(env.RawPayload, wantEnv.RawPayload) || !bytes.Equal(env.PayloadType, wantEnv.PayloadType) || !env.PublicKey.Equals(wantEnv.PublicKey) {
 				got, err := recordIdentity(env)
 				wantID, _ := recordIdentity(wantEnv)
@@ -666,11 +726,6 @@ func (x *executor) read(st *liveStore, rd read, suffix string) {
 			}
 		}
 	}
-}
-
-func (u *universe) envelopeByKey(k string) *record.Envelope {
-	e, _ := u.envs.Load(k)
-	return e.(*record.Envelope)
 }
 
 func basesOf(addrs []ma.Multiaddr) (bases []int, unknown string, dups int) {
